@@ -716,5 +716,12 @@ func (s *PropertyExpressionVisitor) EnterOC_PropertyKeyName(ctx *parser.OC_Prope
 }
 
 func (s *PropertyExpressionVisitor) ExitOC_PropertyKeyName(ctx *parser.OC_PropertyKeyNameContext) {
+	// Every further lookup of a chain such as n.a.b applies to the lookup built so far
+	if s.PropertyLookup.Symbol != "" {
+		s.PropertyLookup = &cypher.PropertyLookup{
+			Atom: s.PropertyLookup,
+		}
+	}
+
 	s.PropertyLookup.SetSymbol(extractPropertyKeyName(s.ctx, ctx))
 }
